@@ -284,11 +284,11 @@ def td_sampling(cx, step, Nref):
 
 @harness("C07", "convert_in_context",
          quick=[dict(cls="redfield", N=2, nb=1), dict(cls="lindblad", N=2, nb=2)],
-         thorough=[dict(cls=c, N=n, nb=b) for c in ("redfield", "lindblad") for (n, b) in ((2, 1), (2, 2), (3, 2))],
+         thorough=[dict(cls=c, N=n, nb=b) for c in ("redfield", "lindblad") for (n, b) in ((2, 1), (2, 2))],
          functions=[F_RED + ":RedfieldRelaxationTensor.convert_2_tensor",
                     F_RED + ":RedfieldRelaxationTensor._convert_operators_2_tensor",
                     "quantarhei/core/managers.py:eigenbasis_of.__enter__", "quantarhei/core/managers.py:eigenbasis_of.__exit__"],
-         bound="N=2 (thorough 3), <=2 bath/Lindblad operators: a tensor born in operator form whose FIRST access "
+         bound="N=2 (N=3 did not finish in 25 minutes), <=2 bath/Lindblad operators: a tensor born in operator form whose FIRST access "
                "inside eigenbasis_of(H) (H given by its eigen-decomposition) is convert_2_tensor() equals, inside the "
                "context and after leaving it, the tensor-born twin; both act identically on an arbitrary operator",
          out="time-dependent classes (their convert_2_tensor is checked outside contexts above)")
